@@ -191,6 +191,15 @@ def finalize (s : BusH ν) : Except Err Unit :=
   else if s.slaveRegions.all (fun p => p.2.aligned) then .ok ()
   else .error .unaligned
 
+/-- Does `do_finalize` build the point-to-point interconnect (observable: the class of `_interconnect`)? -/
+def buildsP2P (s : BusH ν) : Bool := !(s.masters.isEmpty || s.slaves.isEmpty) && s.isP2P
+
+/-- Which word addresses reach (select) a slave with region `r` in the interconnect that `do_finalize` builds:
+    a point-to-point interconnect has no decoder (`master.connect(slave)`: every address reaches the slave);
+    a shared/crossbar interconnect selects by `SoCRegion.decoder`. -/
+def selects (s : BusH ν) (r : Region) (a : Nat) : Bool :=
+  s.buildsP2P || decoderAccepts s.aw s.dw r a
+
 end BusH
 
 /-- Operations of a call history on a bus handler. -/
